@@ -167,7 +167,11 @@ RULE = ('every descriptor the real loader exports (ESTA + manufacturer, GET/SET 
         'first/middle/last byte of every string field, boolean bytes 0/1/2/255} + synthetic descriptors '
         '(nested groups, little endian, limited groups, ill-formed ones); every accepted case is re-encoded twice: '
         'by a fresh MessageSerializer and by ONE serializer shared by the whole run whose buffer was just '
-        'filled with 0xff by another message (key shared), both must equal the model; non-trivial = payload accepted and '
+        'filled with 0xff by another message (key shared), both must equal the model; likewise every case is decoded by a fresh MessageDeserializer and by ONE '
+        'long-lived deserializer (key ldes), and `reload k` operations delete the RootPidStore, disturb the heap, '
+        'load data/rdm again and sweep all descriptors x lengths 0-47 with the long-lived deserializer against '
+        'a fresh one (key sweep) - detection of pointer-keyed caches depends on heap address reuse and is '
+        'therefore probabilistic; non-trivial = payload accepted and '
         're-encoded to a non-empty byte string; distinct = distinct model output line')
 ASSUMPTIONS = ['operator new does not fail',
                'payloads are exact-size heap copies so ASan reports any read past the supplied length',
@@ -178,7 +182,9 @@ TRUSTED = ['modelled rather than verified: Descriptor.h/.cpp size functions, Des
            'of the code corrected by fixes/01, compared through the harness key cap = m_buffer_size; a reused '
            'serializer as a buffer with arbitrary stale contents, c14_serialize_stateless), ShortenString',
            'that the C++ MessageSerializer object carries no state from one message to the next is validated by '
-           'the reuse harness (long-lived serializer dirtied with 0xff before every case), not proved',
+           'the reuse harness (long-lived serializer dirtied with 0xff before every case), not proved; likewise '
+           'that MessageDeserializer keeps nothing but m_variable_field_size between calls (c14_inflate_stateless '
+           'covers that member) is validated by the long-lived deserializer + store delete/reload operations',
            'props/C14/exporter.cpp + c14_desc.h print the descriptors the real loader built as Gallina terms '
            '(coq/PidDescs.v, regenerated every run); the harness prints the descriptor it used (key d) and the '
            'model prints the exported one, so a mis-export shows up as a divergence',
@@ -188,7 +194,7 @@ TRUSTED = ['modelled rather than verified: Descriptor.h/.cpp size functions, Des
            'GroupSizeCalculator is modelled (gcalc) and compared on every case with the payload length as token '
            'count (key gs, internal); PidStoreHelper, StringMessageBuilder and the message printers are outside '
            'the decode/re-encode path and not covered']
-SPEC_KEYS = ['r', 'ser', 'same', 'again', 'shared', 'cc', 'specfail', 'ndesc', 'npids', 'load']
+SPEC_KEYS = ['r', 'ser', 'same', 'again', 'shared', 'ldes', 'sweep', 'n', 'cc', 'specfail', 'ndesc', 'npids', 'load']
 # not property-determined (internal): d (descriptor text), cs (calculator state), gs (GroupSizeCalculator state),
 # m (message text), cap (m_buffer_size)
 INTERNAL_KEYS = []
@@ -364,6 +370,22 @@ def _load_tsv():
 
 
 def gen_cases(rng, tier):
+    """the decode/re-encode cases, with delete/reload operations of the PID store interleaved: the harness
+    keeps ONE long-lived MessageDeserializer (and MessageSerializer); cases are dealt round-robin to <= 16
+    harness processes, so the reloads are spread so that every process gets some, early and late"""
+    inner = list(_gen_cases(rng, tier))
+    n_reload = 48 if tier == 'quick' else 160
+    step = max(1, len(inner) // n_reload)
+    k = 0
+    for i, c in enumerate(inner):
+        if i % step == 7 % step:
+            # shift by k so that consecutive reloads do not all land in the same process
+            yield 'reload %d' % k
+            k += 1
+        yield c
+
+
+def _gen_cases(rng, tier):
     quick = tier == 'quick'
     ents = _load_tsv()
     yield 'store'
